@@ -67,6 +67,10 @@ def run_one(job, props, slot):
                                  "inconclusive": [l for l in lines if l.startswith("INCONCLUSIVE")][:1], "wall": round(time.time() - t0, 1)}
     finally:
         shutil.rmtree(tmp, ignore_errors=True)
+    fired = [p for p, v in res["results"].items() if v["exit"] == 1]
+    incon = [p for p, v in res["results"].items() if v["exit"] == 2]
+    sys.stderr.write("done %-22s fired=%s inconclusive=%s %ds\n" % (name, ",".join(fired), ",".join(incon), sum(v["wall"] for v in res["results"].values())))
+    sys.stderr.flush()
     return res
 
 
